@@ -49,12 +49,6 @@ def reset_concurrency_limiter(token: Any) -> None:
     _concurrency_limiter.reset(token)
 
 
-def _contains_interrupt(node: HyperNode) -> bool:
-    """True for a GraphNode whose nested graph has an InterruptNode at any depth."""
-    nested = getattr(node, "graph", None)
-    return nested is not None and bool(getattr(nested, "has_interrupts", False))
-
-
 def _is_resuming_interrupt(node: HyperNode, state: GraphState) -> bool:
     """True when an InterruptNode will take its resume path (same condition as AsyncInterruptNodeExecutor)."""
     if not getattr(node, "is_interrupt", False):
@@ -102,9 +96,7 @@ async def run_superstep_async(
     # PauseExecution extends BaseException, so if raised inside asyncio.gather
     # it cancels all sibling tasks. By isolating interrupt nodes, other ready
     # nodes are deferred to the next superstep where they'll still be ready.
-    # A GraphNode whose graph contains an interrupt (at any depth) can pause
-    # just the same and is isolated like an InterruptNode.
-    interrupts = [n for n in ready_nodes if n.is_interrupt or _contains_interrupt(n)]
+    interrupts = [n for n in ready_nodes if n.is_interrupt]
     if interrupts:
         ready_nodes = [interrupts[0]]
 
